@@ -79,3 +79,58 @@ pub broadcast proof fn lemma_mapped_none<A, B>(h: spec_fn(A) -> Seq<B>)
 {
     assert(Seq::<A>::empty().map_values(h) =~= Seq::<Seq<B>>::empty());
 }
+
+// ---- nds (Pointer sequence -> Node sequence) distributes over the sequence operations (proved) ----
+pub broadcast proof fn lemma_nds_add<'a, T: Queryable>(a: Seq<Pointer<'a, T>>, b: Seq<Pointer<'a, T>>)
+    ensures #[trigger] nds(a + b) == nds(a) + nds(b),
+{
+    assert(nds(a + b) =~= nds(a) + nds(b));
+}
+pub broadcast proof fn lemma_nds_empty<'a, T: Queryable>()
+    ensures #[trigger] nds(Seq::<Pointer<'a, T>>::empty()) == Seq::<Node<'a, T>>::empty(),
+{
+    assert(nds(Seq::<Pointer<'a, T>>::empty()) =~= Seq::<Node<'a, T>>::empty());
+}
+pub broadcast group group_nds { lemma_nds_add, lemma_nds_empty }
+
+// the pointers carried by a Data value (exec-level view), nodes(d) == nds(ptrs(d))
+pub open spec fn ptrs<'a, T: Queryable>(d: Data<'a, T>) -> Seq<Pointer<'a, T>> {
+    match d { Data::Ref(p) => seq![p], Data::Refs(v) => v@, _ => Seq::empty() }
+}
+pub broadcast proof fn lemma_nodes_ptrs<'a, T: Queryable>(d: Data<'a, T>)
+    ensures #[trigger] nodes(d) == nds(ptrs(d)),
+{
+    broadcast use group_nds;
+}
+
+// concat of a push / of mapped parts
+pub proof fn lemma_concat_push<A>(parts: Seq<Seq<A>>, last: Seq<A>)
+    ensures concat(parts.push(last)) == concat(parts) + last,
+{
+    assert(parts.push(last).drop_last() =~= parts);
+}
+// if every part, seen as nodes, is h(node of the input), the concatenation is `mapped`
+pub proof fn lemma_parts_mapped<'a, T: Queryable>(
+    x: Seq<Pointer<'a, T>>, parts: Seq<Seq<Pointer<'a, T>>>, h: spec_fn(Node<'a, T>) -> Seq<Node<'a, T>>)
+    requires parts.len() == x.len(), forall|i: int| 0 <= i < x.len() ==> nds(#[trigger] parts[i]) == h(nd(x[i])),
+    ensures nds(concat(parts)) == mapped(nds(x), h),
+    decreases x.len(),
+{
+    broadcast use group_nds;
+    if x.len() == 0 {
+        assert(nds(x).map_values(h) =~= Seq::<Seq<Node<'a, T>>>::empty());
+    } else {
+        lemma_parts_mapped(x.drop_last(), parts.drop_last(), h);
+        assert(nds(x).map_values(h).drop_last() =~= nds(x.drop_last()).map_values(h));
+        assert(nds(x).map_values(h).last() == h(nd(x.last())));
+    }
+}
+
+// ---- closure contracts that compose (see DESIGN.md §4) ----
+// f is *pinned* to h when every output the contract of f allows denotes exactly the nodes h(input node)
+pub open spec fn pins<'a, T: Queryable + 'a, F: Fn(Pointer<'a, T>) -> Data<'a, T>>(f: F, h: spec_fn(Node<'a, T>) -> Seq<Node<'a, T>>) -> bool {
+    forall|p: Pointer<'a, T>, o: Data<'a, T>| #[trigger] f.ensures((p,), o) ==> nodes(o) == h(nd(p))
+}
+pub open spec fn nodey<'a, T: Queryable + 'a, F: Fn(Pointer<'a, T>) -> Data<'a, T>>(f: F) -> bool {
+    forall|p: Pointer<'a, T>, o: Data<'a, T>| #[trigger] f.ensures((p,), o) ==> is_nodes(o)
+}
